@@ -9,7 +9,7 @@ oracle:          the by-construction label of the input (valid / which fault) ag
                  valid => exit 0 and no ERROR; faulty => exit != 0, >= 1 ERROR, no artefact; exit != 0 <=> ERROR printed; tools agree
 """
 import json, os, time
-from vlib import build as B, lean as L, express_front as X
+from vlib import build as B, lean as L, express_front as X, schema_gen_express as G
 
 HERE = os.path.dirname(os.path.abspath(__file__))
 VERIF = os.path.dirname(HERE)
@@ -64,6 +64,13 @@ def oracle(case, tool, ob):
     if nonzero != bool(errs):
         return (f"{tool}:{case.cls}:exit-vs-error", f"{tool} exit status {st} but {'no' if not errs else len(errs)} ERROR printed "
                                                    f"({[d[0] for d in errs][:4]})")
+    if getattr(case, "backend_fault", False) and tool == "exppp":
+        # the output file cannot be written: the back end reports FILE_UNWRITABLE through ERRORreport; main()'s gate after the back
+        # end must turn that ERROR into the failure status (the generic `exit status vs ERROR printed` test above has run already)
+        if not errs:
+            return (f"{tool}:backend-error:silent", f"{tool} prints no ERROR although its output file cannot be written ({case.note}): "
+                                                    f"status {st}, files {ob['files'][:3]}")
+        return None
     if case.verdict == "accept":
         if nonzero or errs:
             return (getattr(case, "finding_key", None) or f"{tool}:{case.cls}:rejected",
@@ -200,6 +207,22 @@ def run(ctx):
     rrng = _random.Random(f"ring:{getattr(ctx, 'seed', 0)}")
     chains += [X.gen_ring_case(rrng, f"rg{k}", missing=(k % 3 == 2)) for k in range(12 if not big else 150)]
     streams.append(("chained-imports", chains, ["check-express"] if quick else X.TOOLS))
+    # back-end errors: exppp cannot write <schema>.exp (a directory of that name is in the way / the schema name makes a file name
+    # longer than NAME_MAX) -> ERROR FILE_UNWRITABLE -> the gate after the back end -> failure status
+    brng = _random.Random(f"backend:{getattr(ctx, 'seed', 0)}")
+    bcases = []
+    for k in range(6 if not big else 40):
+        sch = G.gen_schema(brng, 3)
+        if k % 2 == 0:
+            c = X.make_case(f"be{k}_dir_in_the_way", sch, "valid", [], "accept", note=f"a directory named {sch.name}.exp is in the way")
+            c.extra = {f"{sch.name}.exp/keep": b""}
+        else:
+            sch.name = "s" + "x" * brng.randint(255, 270)
+            c = X.make_case(f"be{k}_long_schema_name", sch, "valid", [], "accept", note=f"schema name of {len(sch.name)} characters")
+        c.backend_fault = True
+        c.oracle_only = True
+        bcases.append(c)
+    streams.append(("backend-errors", bcases, ["exppp"]))
     xrng = _random.Random(f"xinherit:{getattr(ctx, 'seed', 0)}")
     xin = [X.gen_xinherit_case(xrng, f"xi{k}", X.XI_FAULTS[k % len(X.XI_FAULTS)]) for k in range(30 if not big else 600)]
     streams.append(("cross-schema-inheritance", xin, X.TOOLS))
